@@ -13,9 +13,11 @@
 //	    mode    e = reply built with SetReply(request as the handler sees it)
 //	            n = the handler writes nothing
 //	            p = the handler panics (the recovery middleware answers)
+//	            P = it panics before asking for the decoded request
 //	    flags   subset of a(AD) A(AA) t(TC) R(RA) z(Z), "-" for none
 //	    an/ns/ex "-" | rec;rec…   rec = <K>.<id>.<p>.<o>.<clen>.<ulen> | O
 //	            K: S=RRSIG N=NSEC 3=NSEC3 A=other (TXT); p = payload bytes;
+//	            C=CNAME (live-server ops only; p = id of the target query name);
 //	            o: q = owner is the question name, u = a unique name;
 //	            clen/ulen = compressed / uncompressed wire length (checked);
 //	            O (only in ex) = position of the OPT record
@@ -338,6 +340,10 @@ func realRR(r aRR, qname string) dns.RR {
 		salt := fmt.Sprintf("%04x", r.id)
 		return &dns.NSEC3{Hdr: hdr, Hash: 1, Iterations: 0, SaltLength: 2, Salt: salt, HashLength: 20,
 			NextDomain: base32.HexEncoding.EncodeToString(pattern(20, r.id)), TypeBitMap: []uint16{dns.TypeA, dns.TypeRRSIG}}
+	case 'C':
+		// an alias: p is the id of the query name it points to
+		hdr.Rrtype = dns.TypeCNAME
+		return &dns.CNAME{Hdr: hdr, Target: qnameOf(r.p)}
 	default:
 		hdr.Rrtype = dns.TypeTXT
 		body := string(pattern(r.p, r.id))
@@ -366,6 +372,8 @@ func idOf(rr dns.RR) string {
 	case *dns.NSEC3:
 		n, _ := strconv.ParseUint(v.Salt, 16, 32)
 		return "3" + strconv.Itoa(int(n))
+	case *dns.CNAME:
+		return "C" + strings.TrimPrefix(strings.SplitN(strings.ToLower(v.Target), ".", 2)[0], "q")
 	case *dns.TXT:
 		if len(v.Txt) > 0 && strings.HasPrefix(v.Txt[0], "i") {
 			return "A" + v.Txt[0][1:]
@@ -399,7 +407,7 @@ func optLen(o []aOption) int {
 // buildUpstream constructs the response the scripted handler writes for the
 // request it sees (req is the message as it reached the handler).
 func buildUpstream(r aR, req *dns.Msg) *dns.Msg {
-	if r.mode == 'n' || r.mode == 'p' {
+	if r.mode == 'n' || r.mode == 'p' || r.mode == 'P' {
 		return nil
 	}
 	m := new(dns.Msg)
